@@ -311,7 +311,7 @@ fn stage_doc(i: &Input, c: &mut Case) -> Result<(), String> {
 pub const STAGES: &[Stage] = &[Stage { name: "every_cut", f: stage_doc }];
 
 pub fn run(rc: &mut RunCtx) {
-    rc.run_pt(STAGES[0], rc.pick(8_000, 200_000), (96, 400));
+    rc.run_pt(STAGES[0], rc.pick(32_000, 200_000), (96, 400));
     rc.require_label("every_cut", "unknown_size", 50_000);
     rc.require_label("every_cut", "source_1byte_reads", 100_000);
     if !rc.quick() {
